@@ -62,6 +62,16 @@ CHECKS = {
             "Every alteration of at most 8 contiguous bits inside a frame of each corpus stream is parsed: the parser must not panic and must either reject the stream or return identical audio; truncations, substitutions and a fixed list of arbitrary inputs must not panic.",
             "Corpus of 12 (quick) / 20 (thorough) streams of 100-700 bytes; allocation failure and hangs are watched by the runner's watchdog.",
             "DESIGN.md 3 C16"),
+    "C17": ("exploration",
+            "exhaustive enumeration of every public entry point of the encoding API x every argument over a boundary / wrap-around grid (others valid), incl. out-of-width samples at each block position, byte fills with every bytes-per-sample against every declared width and fills of every length around the capacity; domain predicate from the statement",
+            "Every argument class the statement lists as outside the supported domain must give Err (not Ok, not a panic, not a hang) on every entry point, single- and multi-thread; plainly valid arguments must give Ok; unclassified arguments are executed and recorded but not judged.",
+            "Domain predicate written from the statement; widths 9..=25 other than 12/16/20/24, rate 0, fills that are not a multiple of the channel count and StreamInfo/FrameBuf channel disagreement are recorded only.",
+            "DESIGN.md 3 C17"),
+    "C18": ("exploration",
+            "exhaustive enumeration of every public component constructor over grids of boundary / inconsistent arguments (all combinations of at most two deviating arguments); post-conditions verify / write x3 / count_bits / parse-back identity",
+            "Each constructor call must return Err, or a component that verifies, serialises into three sinks to exactly count_bits() bits and parses back to a component that re-serialises and renders identically; no panic in constructor, verify, count, write or parser.",
+            "Setters that return no Result (set_total_samples) are outside the statement and not probed beyond their field width.",
+            "DESIGN.md 3 C18"),
     "C19": ("exploration",
             "exhaustive enumeration: TOML round trip over every 1- and 2-field deviation of the configuration; documents written by the harness with every subset (thorough: all 2^19) of the 19 leaf keys omitted, compared with a documented-defaults table",
             "Round trip equality, default substitution for exactly the omitted leaves and agreement of verify() with the documented ranges are checked for ~9k values and for every omission subset of the 19 leaf keys (quick: subsets of size <= 3 or co-size <= 2).",
